@@ -53,7 +53,7 @@ CLAIMED["C04"] = dict(
     note="SSLStreamTransport (OpenSSL) is outside; the async TLS backlog is driven in C12.",
 )
 CLAIMED["C11"] = dict(
-    text="Bounded symbolic execution with time as a solver variable: every selector wait and lock wait advances a virtual clock by a symbolic number of ticks. For _retry (via transport.recv/send), send_all / send_all_from_iterable, StreamEndpoint.recv_packet with a drip-fed frame (both receive paths) and the real TCPNetworkClient and UDPNetworkClient (send_packet, recv_packet, iter_received_packets with a contended lock; a selector that never reports readiness although a retry succeeds - the retry_interval contract): elapsed <= T, TimeoutError only when the whole budget is consumed, T = 0 never waits.",
+    text="Bounded symbolic execution with time as a solver variable: every selector wait and lock wait advances a virtual clock by a symbolic number of ticks. For _retry (via transport.recv/send), send_all / send_all_from_iterable, StreamEndpoint.recv_packet with a drip-fed frame (both receive paths) and the real TCPNetworkClient and UDPNetworkClient (send_packet, recv_packet, iter_received_packets with a contended lock; a selector that never reports readiness although a retry succeeds - the retry_interval contract): elapsed <= T, TimeoutError only when the whole budget is consumed, T = 0 never waits. recv-scratch shards: the buffer-filling receive path with a serializer whose buffer is scratch space refilled from offset 0 and as small as the reads (every read fills the whole buffer).",
     design="4/C11",
     technique="symbolic execution of real code (CrossHair+z3) with a virtual clock: elapsed times, readiness, would-block and lock contention as solver variables",
     note="Processing time between waits is modelled as zero; integer ticks; <= K would-blocks per call in the SX shards; the KS shard adds loop-head induction (no bound on wake-ups / partial writes) for _retry, send_all and the sendmsg loop.",
@@ -67,7 +67,7 @@ CLAIMED["C10"] = dict(
 )
 
 CLAIMED["C20"] = dict(
-    text="Bounded symbolic execution of the real WriteFlowControl / writer_drain / AsyncioTransportStreamSocketAdapter.send_all / send_all_from_iterable over a fake asyncio transport on a deterministic loop: 2-3 sender tasks, a solver-chosen sequence of events (loop iteration, kernel takes j bytes, start sender, cancel a sender, fatal error) with symbolic immediate-accept and flush sizes, then a final resume or connection loss. Asserted: user-space buffering disabled (high-water mark 0); a send_all that returns did so only after its own bytes reached the kernel; after the final resume every non-cancelled sender returned; after a loss every unfinished sender raises OSError (no hang, no silent drop); cancelling one parked sender strands nobody.",
+    text="Bounded symbolic execution of the real WriteFlowControl / writer_drain / AsyncioTransportStreamSocketAdapter.send_all / send_all_from_iterable over a fake asyncio transport on a deterministic loop: 2-3 sender tasks, a solver-chosen sequence of events (loop iteration, kernel takes j bytes, start sender, cancel a sender, fatal error) with symbolic immediate-accept and flush sizes, then a final resume or connection loss. Asserted: user-space buffering disabled (high-water mark 0); a send_all that returns did so only after its own bytes reached the kernel; after the final resume every non-cancelled sender returned; after a loss every unfinished sender raises OSError (no hang, no silent drop); cancelling one parked sender strands nobody. flow-nopause shards: a stream transport that cannot pause reading with the read buffer past its high-water mark (the protocol drops its transport reference) - a lost connection must still wake parked senders; flow-dgram-endpoint-empty: an empty datagram goes through the same flow control.",
     design="4/C20",
     technique="symbolic execution of real code (CrossHair+z3) over event schedules and sizes on a deterministic asyncio loop",
     note="Also driven: the datagram users of the same WriteFlowControl class (asyncio DatagramEndpoint.sendto, DatagramListenerSocketAdapter.send_to) with the same event alphabet.",
@@ -80,7 +80,7 @@ CLAIMED["C03"] = dict(
 )
 
 CLAIMED["C15"] = dict(
-    text="Bounded symbolic execution of the real AsyncStreamServer client coroutine, both request receivers, the async-generator actions and build_lowlevel_stream_server_handler on a deterministic loop (real task groups and timeout scopes) over an in-memory listener/transport: frames that are well-formed or malformed by solver choice, a solver-chosen sequence of events (loop iteration, client sends k bytes, time passes), handler shapes (1/2/unbounded requests per generator, yielded timeout None/0/5, on_connection coroutine or generator (also one that yields two different timeouts), handler closes the client). Asserted: requests and parse errors seen by the handler == reference decoding, in order, once, across generator restarts; TimeoutError only without a received complete request; every generator closed exactly once; transport closed and on_disconnection once; responses in order.",
+    text="Bounded symbolic execution of the real AsyncStreamServer client coroutine, both request receivers, the async-generator actions and build_lowlevel_stream_server_handler on a deterministic loop (real task groups and timeout scopes) over an in-memory listener/transport: frames that are well-formed or malformed by solver choice, a solver-chosen sequence of events (loop iteration, client sends k bytes, time passes), handler shapes (1/2/unbounded requests per generator, yielded timeout None/0/5, on_connection coroutine or generator (also one that yields two different timeouts), handler closes the client). Asserted: requests and parse errors seen by the handler == reference decoding, in order, once, across generator restarts; TimeoutError only without a received complete request; every generator closed exactly once; transport closed and on_disconnection once; responses in order. hl-* shards: the close shapes through the real AsyncTCPNetworkServer (client API object), also with a transport close that raises a connection error swallowed by the handler; no generator is started after the handler closed the client.",
     design="4/C15",
     technique="symbolic execution of real code (CrossHair+z3) over event schedules, feed sizes and frame validity on a deterministic asyncio loop",
 )
